@@ -1,5 +1,7 @@
 """C17 NTv2 grid files are read faithfully and interpolated only from the right nodes."""
 import math
+
+import numpy as np
 import os
 
 from hypothesis import strategies as st
@@ -233,7 +235,10 @@ def _check_file(nt, tf, path, subgrids, case):
                            bucket="default arguments")
         # (c) 2-D transformation: add the latitude shift, subtract the positive-west longitude shift (arc-seconds)
         fwd = q["forward"]
-        t = tf.ntv2_2d(g, lat, lon, fwd, method)
+        # the direction flag as callers hold it: a Python bool, the numpy bool a comparison returns, or 1 / 0
+        rep = q.get("flag", "bool")
+        flag = {"bool": fwd, "np": np.bool_(fwd), "int": int(fwd)}[rep]
+        t = tf.ntv2_2d(g, lat, lon, flag, method) if not q.get("kw") else tf.ntv2_2d(g, lat, lon, forward_tf=flag, method=method)
         sgn = 1.0 if fwd else -1.0
         want_t = (lat + sgn * res[0] / 3600.0, lon - sgn * res[1] / 3600.0)
         if not (abs(t[0] - want_t[0]) <= 1e-12 and abs(t[1] - want_t[1]) <= 1e-12):
@@ -375,7 +380,8 @@ def grid_files(draw):
                                            "hot", "hot"])),
             "fr": draw(_unit), "fc": draw(_unit), "fu": draw(_unit), "fv": draw(_unit), "ir": draw(st.integers(0, 1)),
             "ic": draw(st.integers(0, 1)), "side": draw(st.integers(0, 3)), "delta": draw(S.log_uniform(2e-6, 1.0)),
-            "method": draw(st.sampled_from(["bilinear", "bicubic", "bicubic"])), "forward": draw(st.booleans())})
+            "method": draw(st.sampled_from(["bilinear", "bicubic", "bicubic"])), "forward": draw(st.booleans()),
+            "flag": draw(st.sampled_from(["bool", "bool", "np", "int"])), "kw": draw(st.booleans())})
     return {"subgrids": subs, "queries": queries, "gs_type": "SECONDS",      # (shifts are stated in arc-seconds; what a reader should do with another GS_TYPE is not)
             "system_f": draw(st.sampled_from(["AGD66", "GDA94", "A"])), "system_t": draw(st.sampled_from(["GDA94", "GDA2020", "WGS84"]))}
 
